@@ -46,7 +46,7 @@ def fixed_scripts(res, site, entries, specs=None):
     (plain values, real compiler and VM)."""
     from bardolph.parser.parse import Parser
     from bardolph.vm.machine import Machine
-    from vlib import world
+    from vlib import world, scripth
     res.sites.add(site)
     for text, want in entries:
         res.nontrivial += 1
@@ -64,7 +64,12 @@ def fixed_scripts(res, site, entries, specs=None):
             continue
         m = Machine()
         m.reset()
-        m.run(p.get_program())
+        scripth._instrument(m, 20000)
+        try:
+            m.run(p.get_program())
+        except scripth.StepBound:
+            res.violation('%s|does not end' % site, 'still running after 20000 VM instructions\n  script: %s' % text, inputs={'script': text}, replayed=True)
+            continue
         outs = ['\n' if e[0] == 'newline' else e[1] for e in net.trace if e[0] in ('out', 'newline')]
         if net.aborted or outs != list(want):
             res.violation('%s|wrong output' % site, 'prints %r%s, expected %r\n  script: %s' % (outs, ' (%s)' % net.aborted if net.aborted else '', list(want), text),
